@@ -47,7 +47,7 @@ ASSUMPTIONS = [
     "as a violation of its own kind (the history cannot be evaluated)",
 ]
 PROFILE = {
-    "quick": dict(examples=260, shards=16, budget_s=100),
+    "quick": dict(examples=200, shards=16, budget_s=110),
     "thorough": dict(examples=9000, shards=16, budget_s=1100),
 }
 
